@@ -204,6 +204,12 @@ pub enum Op
     XBc(u8, u32),
     XEEv(u8, u8, u32),
     XSysEv(u8, u32),
+    /// immediate calls from the body of an exclusive system: `SystemCommand::apply(world)`, `World::send_system_event`,
+    /// `World::broadcast`, `World::entity_event` (they run at once, nested in the body)
+    IRun(u8),
+    ISysEv(u8, u32),
+    IBc(u8, u32),
+    IEEv(u8, u8, u32),
     /// `ReactiveMut::single_mut` / `set_single_if_not_eq` / `single_noreact` (skipped unless exactly this entity has the component)
     SMut(u8, u8, u32),
     SSet(u8, u8, u32),
@@ -263,6 +269,10 @@ impl Op
             "xbc" => Op::XBc(n8(1), n32(2)),
             "xeev" => Op::XEEv(n8(1), n8(2), n32(3)),
             "xsysev" => Op::XSysEv(n8(1), n32(2)),
+            "irun" => Op::IRun(n8(1)),
+            "isysev" => Op::ISysEv(n8(1), n32(2)),
+            "ibc" => Op::IBc(n8(1), n32(2)),
+            "ieev" => Op::IEEv(n8(1), n8(2), n32(3)),
             "smut" => Op::SMut(n8(1), n8(2), n32(3)),
             "sset" => Op::SSet(n8(1), n8(2), n32(3)),
             "sno" => Op::SNo(n8(1), n8(2), n32(3)),
@@ -310,6 +320,10 @@ impl Op
             Op::XBc(t, p) => json!(["xbc", t, p]),
             Op::XEEv(e, t, p) => json!(["xeev", e, t, p]),
             Op::XSysEv(s, p) => json!(["xsysev", s, p]),
+            Op::IRun(s) => json!(["irun", s]),
+            Op::ISysEv(s, p) => json!(["isysev", s, p]),
+            Op::IBc(t, p) => json!(["ibc", t, p]),
+            Op::IEEv(e, t, p) => json!(["ieev", e, t, p]),
             Op::SMut(e, c, v) => json!(["smut", e, c, v]),
             Op::SSet(e, c, v) => json!(["sset", e, c, v]),
             Op::SNo(e, c, v) => json!(["sno", e, c, v]),
